@@ -29,6 +29,22 @@ def gen_summary():
     return "\n".join(out) + "\n"
 
 
+def gen_unicode():
+    """character classes of the running Python that the string models consult"""
+    import sys
+    space = [c for c in range(sys.maxunicode + 1) if chr(c).isspace()]
+    # str.splitlines boundaries
+    lines = [c for c in range(sys.maxunicode + 1) if len(("a" + chr(c) + "b").splitlines()) == 2]
+    digits = [c for c in range(128) if chr(c).isdigit()]
+    out = ["(* GENERATED from the running Python (str.isspace, str.splitlines) by harness/gen_more.py *)",
+           "From BV Require Import Base.", "",
+           "Definition space_cps : list N := %s." % clist(["%d%%N" % c for c in space], "N"),
+           "Definition linebreak_cps : list N := %s." % clist(["%d%%N" % c for c in lines], "N"),
+           "Definition ascii_digit_cps : list N := %s." % clist(["%d%%N" % c for c in digits], "N")]
+    return "\n".join(out) + "\n"
+
+
 GENERATORS = {
     "SummaryTables.v": gen_summary,
+    "UnicodeTables.v": gen_unicode,
 }
